@@ -24,12 +24,15 @@ CONSTANT Props
 Chk(p, cond) == (p \notin Props) \/ cond
 
 VARIABLES l,        \* next trace line
-          begin     \* projection at the begin of the running write transaction (RollbackExact)
+          begin,    \* projection at the begin of the running write transaction (RollbackExact)
+          tick      \* what the last event touched: "q" a transaction ended / file (re)opened,
+                    \* "io" disk or commit ghosts changed, "-" neither (the expensive disk
+                    \* invariants are re-evaluated only when their inputs changed)
 
 Trace == ndJsonDeserialize("trace.ndjson")
 Ev == Trace[l]
 
-tvars == <<coreVars, l, begin>>
+tvars == <<coreVars, l, begin, tick>>
 
 RegSet(regs) == UNION {(regs[i][1])..(regs[i][1] + regs[i][2] - 1) : i \in 1..Len(regs)}
 SeqSet(s) == {s[i] : i \in 1..Len(s)}
@@ -263,7 +266,7 @@ TInit ==
   /\ cm = Cm0 /\ cd = Cm0 /\ tx = NoTx /\ rds = EmptyFn
   /\ al = Al0 /\ wm = Wm0 /\ hdr = Hdr0 /\ lk = Lk0 /\ stats = Stats0
   /\ dur = Dur0 /\ pend = <<>> /\ inflight = None /\ maybe = {}
-  /\ begin = None /\ l = 1
+  /\ begin = None /\ l = 1 /\ tick = "q"
 
 Reset ==
   /\ cm' = Cm0 /\ cd' = Cm0 /\ tx' = NoTx /\ rds' = EmptyFn
@@ -271,10 +274,17 @@ Reset ==
   /\ dur' = Dur0 /\ pend' = <<>> /\ inflight' = None /\ maybe' = {}
   /\ begin' = None
 
+TickOf(ev) == IF ev \in {"Adopt", "Commit", "Rollback", "Reopen", "Reset", "OpenResize"} THEN "q"
+              ELSE IF ev \in {"W", "S", "T", "CommitBegin", "CommitSwitched"} THEN "io" ELSE "-"
+
 TNext ==
   /\ l <= Len(Trace)
   /\ l' = l + 1
+  /\ tick' = TickOf(Ev.ev)
   /\ IF Ev.ev = "Reset" THEN Reset ELSE Act(Ev)
+
+CrashSafeT == tick \in {"q", "io"} => CrashSafe
+ReopenStableT == tick = "q" => ReopenStable
 
 TSpec == TInit /\ [][TNext]_tvars
 
